@@ -247,6 +247,10 @@ def shape_sweep():
         "nullable-enum": {"type": ["string", "null"], "enum": ["a", "b", None]},
         # non-integral bounds on numbers written as type lists, strings with a format that stays a plain str
         "fraction": {"type": "number", "minimum": 0.5, "maximum": 0.75},
+        # integers with non-integral bounds: both styles truncate them (C04-int-truncation) - they must at least do the same thing
+        "int-fraction": {"type": "integer", "minimum": 0.5, "maximum": 9.5},
+        "int-fraction-negative": {"type": "integer", "exclusiveMinimum": -7.5, "maximum": -1.5},
+        "int-fraction-exclusive": {"type": "integer", "exclusiveMaximum": 6.5, "minimum": 2.0},
         "nullable-fraction": {"type": ["number", "null"], "minimum": 0.5, "maximum": 0.75},
         # (a member of type [number, integer] is left out: with --field-constraints pydantic reports Field bounds on a Union in a
         #  different schema shape although the same values are accepted - comparing reported schemas there would be a false alarm)
